@@ -182,6 +182,16 @@ def run(res, tier, seed):
         open(os.path.join(cdir, "in.xml"), "w").write("<a/>")
         cases.append({"id": k, "dir": cdir, "trace": "none", "select": False})
         metas.append(("value", vals, fmt)); k += 1
+    # alphabetic numbering is bijective base 26: the values where one, two and three columns roll over together, and their neighbours
+    ALPHA = [25, 26, 27, 51, 52, 53, 675, 676, 677, 701, 702, 703, 728, 1351, 1352, 1353, 17575, 17576, 17577, 18251, 18252, 18253, 18277, 18278, 18279,
+             456975, 456976, 456977, 475253, 475254, 475255]
+    for fmt in (["a", "A"] if quick else ["a", "A", "1.a", "(A)", "a-1"]):
+        vals = ALPHA if not quick else rng.sample(ALPHA, 16) + [676, 18252]
+        cdir = os.path.join(wd, "case%d" % k); os.makedirs(cdir)
+        open(os.path.join(cdir, "main.xsl"), "w").write(render_value(vals, fmt))
+        open(os.path.join(cdir, "in.xml"), "w").write("<a/>")
+        cases.append({"id": k, "dir": cdir, "trace": "none", "select": False})
+        metas.append(("value", vals, fmt)); k += 1
     # grouping-separator / grouping-size (both given) on decimal numbering
     gvals = [1, 12, 123, 1234, 12345, 123456, 1234567, 1000, 1000000, 999999, 100, 99999999]
     for gsep in [",", ".", " ", "'", "_"]:
